@@ -15,7 +15,11 @@ Proof.
   destruct o; cbn [op_effect]; intros E.
   - unfold st_create_node in E. injection E as <- <- <- <-. reflexivity.
   - unfold st_create_node in E. injection E as <- <- <- <-. cbn. apply data_setnode.
-  - destruct (st_delete_node s id) as [s' b]. injection E as <- <- <- <-. destruct b; reflexivity.
+  - assert (C : forallb is_data (snd (if node_visible s id then delete_edges s (incident_edges s id) else (s, []))) = true).
+    { destruct (node_visible s id); [apply delete_edges_apply|reflexivity]. }
+    destruct (if node_visible s id then delete_edges s (incident_edges s id) else (s, [])) as [s0 ers]. cbn [snd] in C.
+    destruct (st_delete_node s0 id) as [s' b]. injection E as <- <- <- <-.
+    rewrite forallb_app, C. destruct b; reflexivity.
   - injection E as <- <- <- <-. reflexivity.
   - destruct (st_add_label s id l) as [s' b]. injection E as <- <- <- <-. destruct b; reflexivity.
   - destruct (st_remove_label s id l) as [s' b]. injection E as <- <- <- <-. destruct b; reflexivity.
